@@ -239,6 +239,71 @@ impl CryptoResolver for DefaultResolver {
     return ex
 
 
+WRAPPER_VSHIM = '''pub mod wshim {
+use vstd::prelude::*;
+verus! {
+// R15 shims (trusted, one line each): byte order of u64::to_le_bytes / to_be_bytes
+#[verifier::external_body] pub fn u64_to_le_bytes(n: u64) -> (r: [u8; 8]) ensures r@ == crate::vspec::le64(n) { n.to_le_bytes() }
+#[verifier::external_body] pub fn u64_to_be_bytes(n: u64) -> (r: [u8; 8]) ensures r@ == crate::vspec::be64(n) { n.to_be_bytes() }
+}
+}
+'''
+
+
+def extract_wrappers(repo, root):
+    """R16: second verification unit - resolvers/default.rs (and ring.rs) verbatim, against stub modules that carry the
+    ASSUMED contracts of the third-party crates."""
+    ex = Extracted()
+
+    def rd(p):
+        return open(os.path.join(repo, 'src', p)).read()
+    prelude = PRELUDE.replace('//@SPEC-MODULES@', WRAPPER_VSHIM + '//@SPEC-MODULES@\n//@DEPS@')
+    out = [prelude]
+    for m in ['constants', 'error']:
+        out.append(_wrap(m, _pub_fields(ex, _clean(ex, rd(m + '.rs'))), m + '.rs'))
+    t = _clean(ex, rd('types.rs'))
+    # R5w: in this unit Random keeps the one RngCore method the wrappers call
+    t = _sub(ex, 'R5w', r'pub trait Random: Send \+ Sync \{\}', 'pub trait Random: Send + Sync { fn fill_bytes(&mut self, dest: &mut [u8]); }', t, expect=1)
+    out.append(_wrap('types', _pub_fields(ex, t), 'types.rs'))
+    # params: only the *Choice enums are needed; keep the module as in the core unit minus patterns
+    pm = _clean(ex, rd('params/mod.rs'))
+    pm = _sub(ex, 'R1-nest', r'mod patterns;\n', '', pm, expect=1)
+    pm = _sub(ex, 'R12', r'impl FromStr for', '#[verifier::external]\nimpl FromStr for', pm, minimum=5)
+    pm = _sub(ex, 'R16-params', r'(?ms)^pub(?:\(crate\))? use self::patterns::\{.*?\};\n', '', pm, expect=2)
+    pm = _sub(ex, 'R16-params', r'(?ms)^/// The set of choices.*', '', pm)   # NoiseParams and below (needs patterns)
+    pm = _sub(ex, 'R16-params', r'(?m)^use crate::error::.*\n', 'use crate::error::{Error, PatternProblem};\n', pm)
+    out.append('pub mod params {\n//@@SRC params/mod.rs\nuse vstd::prelude::*;\nverus! {\n%s\n} // verus!\n}\n' % pm)
+    r = _clean(ex, rd('resolvers/mod.rs'))
+    r = _sub(ex, 'R2-resolvers', r'(?ms)^/// The default primitive resolver\.\n.*?mod ring;\n', '', r, expect=1)
+    r = _pub_fields(ex, r)
+
+    def wrapper_file(name):
+        d = rd('resolvers/%s.rs' % name)
+        d = _sub(ex, 'R2-innerdoc', r'(?m)^//!.*\n', '', d)
+        d = _sub(ex, 'R2-tests', r'(?ms)^#\[cfg\(test\)\].*', '', d)
+        for crate in ['curve25519_dalek', 'blake2', 'sha2', 'chacha20poly1305', 'aes_gcm', 'rand_core', 'ring']:
+            d = _sub(ex, 'R16-use', r'(?m)^use %s::' % crate, 'use crate::deps::%s::' % crate, d)
+        d = _sub(ex, 'R16-use', r'(?<![\w:])aes_gcm::Aes256Gcm::new\(', 'crate::deps::aes_gcm::Aes256Gcm::new(', d)
+        d = _sub(ex, 'R15', r'&?nonce\.to_(le|be)_bytes\(\)', r'crate::wshim::u64_to_\1_bytes(nonce)', d)
+        d = _sub(ex, 'R11-closure', r'\|_\|', '|_e|', d)
+        d = _sub(ex, 'R11-closure', r'\|\(\)\|', '|_u: ()|', d)
+        d = _sub(ex, 'R8', r'(?m)^struct ', 'pub struct ', d)
+        d = _sub(ex, 'R4', r'assert!\(([^;]+?), "[^"]*"\);', r'crate::vassert(\1);', d)
+        return d
+    d = wrapper_file('default')
+    d = _sub(ex, 'R5w', r'impl Random for OsRng \{\}',
+             'impl Random for OsRng { #[verifier::external_body] fn fill_bytes(&mut self, dest: &mut [u8]) { unimplemented!() } }', d, expect=1)
+    d = _pub_fields(ex, d)
+    body = r + '\npub mod default {\n//@@SRC resolvers/default.rs\nuse vstd::prelude::*;\nverus! {\n%s\n} // verus!\n}\n' % d
+    out.append('pub mod resolvers {\n//@@SRC resolvers/mod.rs\nuse vstd::prelude::*;\nverus! {\n%s\n} // verus!\n}\n' % body)
+    out.append('fn main() {}\n')
+    ex.text = '\n'.join(out)
+    ex.dropped = ['wrapper unit: only constants, error, types, params choices, resolvers/mod.rs, resolvers/default.rs are in this unit',
+                  'third-party crates replaced by stub modules with ASSUMED contracts (spec/deps/*.rs)',
+                  'P-256, XChaChaPoly, Kyber wrappers are compiled out (cfg) in the default configuration']
+    return ex
+
+
 if __name__ == '__main__':
     import sys
     e = extract(sys.argv[1] if len(sys.argv) > 1 else '/repo')
